@@ -158,8 +158,23 @@ func (r *Run) decoders(schemaOK func(*basis.Schema) bool, opts []basis.Options, 
 }
 
 // C07: decoding arbitrary bytes never panics or runs away.
+// verifyIohelp verifies the runtime functions a property of the generated code rests on (a caller is checked
+// against their contracts only, so a change inside one of them is seen here, not in the generated code).
+func (r *Run) verifyIohelp(filter func(key string) bool) error {
+	r.byteTheory = true
+	e, err := r.loadEngine(r.Repo, "./iohelp")
+	if err != nil {
+		return err
+	}
+	return r.verify(e, []string{iohelpPkg}, Selection{FuncFilter: filter}, false)
+}
+
 func checkC07(r *Run) error {
 	err := r.decoders(nonMap, r.optsFor(false), nil)
+	if err == nil {
+		// the byte-slice readers the decoders call
+		err = r.verifyIohelp(func(k string) bool { return strings.Contains(k, ".Read") && strings.Contains(k, "Bytes") })
+	}
 	r.Explanation = "Precondition-free sweep: every index, slice, nil dereference, type assertion, callee precondition and make() in UnmarshalBebop, DecodeBebop and the Make* wrappers of the basis is an obligation discharged for an arbitrary buffer / an arbitrary reader with arbitrary faults (loops carry cursor invariants derived from the schema description; parents rely on the proved bound Size(decoded) <= len(buf) of nested decoders). Memory: every make() on the byte path requests at most 64 bytes per byte of input still unread (obligation [ALLOC] at each allocation site). Termination: range loops are bounded by their (checked) counts and the message dispatch loop consumes at least one byte per iteration (cursor invariant); not discharged as a separate decreases obligation. Stream path: allocation from a count read off the stream cannot be checked against input that has not arrived (design-level; see DESIGN.md findings)."
 	r.Coverage["not_covered"] = "map-typed fields; MustUnmarshalBebop (documented unchecked variant); allocation bound on the stream path"
 	return err
@@ -168,6 +183,10 @@ func checkC07(r *Run) error {
 // C06 (safety half): truncated input never crashes; the error half needs the decode-functional contracts.
 func checkC06(r *Run) error {
 	err := r.decoders(nonMap, r.optsFor(false), nil)
+	if err == nil {
+		// every reader of the runtime, byte-slice and stream, and the sticky-error reader itself
+		err = r.verifyIohelp(func(k string) bool { return strings.Contains(k, ".Read") || strings.Contains(k, "ErrorReader") })
+	}
 	r.Explanation = "A strict prefix of a valid encoding is a particular arbitrary byte string / a particular reader that fails with EOF at some offset: the no-panic, bounded-allocation and fault-latching obligations of C07/C08 are discharged for all of them at once (the cut point is universally quantified by the unconstrained buffer and by the assumed io.Reader contract). That a strict prefix yields a NON-NIL error (rather than a nil error with a partial value) needs the decode-functional contracts (input holds wire(v0) up to k < size) and is not yet claimed; stream side: a short read always latches (C20) and DecodeBebop returns the latched error (LATCH)."
 	r.Coverage["not_covered"] = "the 'returns a non-nil error' half on the byte path (pending decode-functional contracts); map-typed fields"
 	return err
@@ -226,7 +245,18 @@ func checkC09(r *Run) error {
 		return false
 	}
 	err := r.genVerify(small, r.optsFor(true), encMethods, nil)
-	r.Explanation = "The same schema-derived contract (reference trace, size, frame) is verified against the code generated under every option set of the tier (quick: a pairwise-covering set of 6; thorough: all 32): every variant satisfies the one specification, hence all variants emit the same bytes. Decoders are not yet covered."
+	if err == nil {
+		// the runtime functions that only option-specific code calls (shared-memory strings, unsafe Must* readers)
+		// are part of what the options change: verify them here as well, not only under C20
+		r.byteTheory = true
+		var e *vc.Engine
+		if e, err = r.loadEngine(r.Repo, "./iohelp"); err == nil {
+			err = r.verify(e, []string{iohelpPkg}, Selection{FuncFilter: func(key string) bool {
+				return strings.Contains(key, "SharedMemory") || strings.Contains(key, ".MustRead")
+			}}, false)
+		}
+	}
+	r.Explanation = "The same schema-derived contract (reference trace, size, frame) is verified against the code generated under every option set of the tier (quick: a pairwise-covering set of 6; thorough: all 32): every variant satisfies the one specification, hence all variants emit the same bytes. The iohelp readers that only option-specific code calls (shared-memory strings, Must* readers) are verified against the same byte-level contracts as their checked counterparts. Equality of decoded values across options is not covered (needs the functional decode contract)."
 	return err
 }
 
